@@ -659,6 +659,38 @@ func main() {
 				fmt.Fprintf(&b, "\t%q: jen.%s,\n", f.name, f.name)
 			}
 		}
+		b.WriteString("}\n\n// token APIs: name -> takes a string argument\nvar genTokens = map[string]bool{\n")
+		seenTok := map[string]bool{}
+		for _, t := range tokens {
+			if t.kind == "lit" || t.kind == "litrune" || t.kind == "litbyte" {
+				continue
+			}
+			if !seenTok[t.api] {
+				seenTok[t.api] = false
+			}
+			if t.dynamic {
+				seenTok[t.api] = true
+			}
+		}
+		var tnames []string
+		for n := range seenTok {
+			tnames = append(tnames, n)
+		}
+		sort.Strings(tnames)
+		for _, n := range tnames {
+			fmt.Fprintf(&b, "\t%q: %v,\n", n, seenTok[n])
+		}
+		b.WriteString("}\n\n// group constructs: name -> arity (variadic | fixed<n> | callback | tokens), \"dynamic:\" prefix for Custom\nvar genConstructs = map[string]string{\n")
+		for _, c := range constructs {
+			ar := c.arity
+			if ar == "fixed" {
+				ar = fmt.Sprintf("fixed%d", c.n)
+			}
+			if c.dynamic {
+				ar = "dynamic:" + ar
+			}
+			fmt.Fprintf(&b, "\t%q: %q,\n", c.api, ar)
+		}
 		b.WriteString("}\n")
 		p := filepath.Join(*harnessOut, "funcs_gen.go")
 		old, err := os.ReadFile(p)
